@@ -45,7 +45,8 @@ CHECKS = {
         'technique': 'property-based testing: validity predicate over designed generated topologies',
     },
     'C09': {
-        'text': 'Same generator; for every OMS the gain/target consistency relation, the documented delta_p rule (rounding, '
+        'text': 'Point-to-point lines starting at a transceiver (any SI tx power): every amplifier delivers reference power + offset. '
+                'Same generator; for every OMS the gain/target consistency relation, the documented delta_p rule (rounding, '
                 'clamping, 0 before a ROADM, justified saturation reductions, operator values kept) and the propagation of the '
                 'design comb against the designed powers.',
         'note': _NOTE,
@@ -67,7 +68,7 @@ CHECKS = {
         'technique': 'property-based testing: brute-force graph search as reference model',
     },
     'C12': {
-        'text': 'Paths returned for synchronisation groups mapped to ground-truth undirected link ids (from the generator uid '
+        'text': 'Random groups, 1+1 protection pairs, cyclic pair groups and bridge topologies: paths returned for synchronisation groups mapped to ground-truth undirected link ids (from the generator uid '
                 'scheme) and required pairwise disjoint, DisjunctionError required otherwise; completeness for single pairs '
                 'against an own brute-force search for two link-disjoint paths.',
         'note': _NOTE,
@@ -111,7 +112,7 @@ CHECKS = {
         'technique': 'property-based testing: ground-truth partition + reference band arithmetic + invariants of grid alignment',
     },
     'C16': {
-        'text': 'Differential over histories: each generated request planned alone on a pristine copy vs inside 2-4 generated '
+        'text': 'Differential over histories (incl. GGN parameters, explicit line routes, twin requests differing in tx power): each generated request planned alone on a pristine copy vs inside 2-4 generated '
                 'orderings / sub-batches that reuse one network object; routes, modes, receiver figures, verdicts compared '
                 '(1e-9), network state digest and export compared before/after.',
         'note': _NOTE,
@@ -142,7 +143,7 @@ CHECKS = {
         'technique': 'property-based testing: round trip over generated export/reload/redesign histories + global-state invariant',
     },
     'C19': {
-        'text': 'Batches with every reachable outcome (served, bidirectional, multi-slot, aggregated duplicates, each blocking '
+        'text': 'Reverse directions re-propagated independently when several bidirectional requests share a batch. Batches with every reachable outcome (served, bidirectional, multi-slot, aggregated duplicates, each blocking '
                 'reason) through planning(), results_to_json() and jsontocsv(): the response is compared with an expectation '
                 'rebuilt from the post-planning request objects and each request\'s own forward/reverse propagated path '
                 '(ids, aggregation, hop list, labels, transponder objects, eleven metrics, blocked layout, CSV fields and pass flag).',
